@@ -6,6 +6,10 @@ ids = [json.loads(l)['id'] for l in open(f'{V}/properties.jsonl')]
 hook_commits = ["d6c2605", "7556b51"]
 
 CLAIMED = {
+ "C13": dict(engine="E2 corpus + schedules", technique="differential testing across K independent compilations (fresh hash seeds) and generated export schedules; oracle = byte equality",
+   text="The same generated source (types with many dependencies, shared files) is compiled in 3 (quick) / 6 (thorough) slot crates by independent rustc processes; every binary dumps all public string-returning functions 12 times and exports all types under generated orders, thread counts {1,2,8,16} and delay tapes; dumps and export trees must be identical between calls, schedules and binaries.",
+   note="The hash seed of the macro process cannot be set from outside; detection of an order leak is probabilistic (stated in the evidence). dependencies() order is not compared.",
+   ref="DESIGN.md §4 C13"),
  "C15": dict(engine="E2 corpus", technique="proptest-driven generation of doc texts x positions with metamorphic twins (docs removed / changed); oracle = comment-free swc AST equality + swc comment attachment",
    text="Every generated module is compiled three times (as generated, docs removed, docs changed); the comment-free swc ASTs of all declarations must be identical. Each doc comment of a type or named field must appear as exactly one block comment that swc attaches to the documented declaration/property, separated by white space only and containing every doc line; no other comment may exist; the texts and the files written into shared files must satisfy C04's conditions.",
    note="Docs of flattened fields and variants are documented as dropped. The same-file merge findings of C05 are listed for C15 as one known finding and excluded from the merged part of the search.",
